@@ -16,7 +16,7 @@ of difference and the construct tags of the shrunk program).
 import collections
 import random
 
-from checks import proglib
+from checks import c05_stack, proglib
 from gens import c05gen, progs
 from vf import core, engine, pool
 
@@ -40,14 +40,35 @@ def _layout_desc(i):
 
 
 # ---------------------------------------------------------------------- worker side
+_STACK = []  # [reason-or-None] once calibrated in this process
+
+
+def stack_verifier_off():
+    """None when the static stack-balance verifier is usable on this tree,
+    otherwise the reason it switched itself off (fail-soft: it reads internals)."""
+    if not _STACK:
+        _STACK.append(c05_stack.calibrate())
+    return _STACK[0]
+
+
 def run_case(prog, layout=None, step_limit=200000):
-    """-> (diff or None, exp, got, src); diff = (kind, detail); exp may be unmodelled."""
+    """-> (diff or None, exp, got, src); diff = (kind, detail); exp may be unmodelled.
+    When the behaviour agrees, the compiled code is additionally checked by the
+    static stack-balance verifier (kind "stack-balance")."""
     src = progs.to_js(prog, layout)
     exp = proglib.run_ref(prog, step_limit=step_limit)
     if "unmodelled" in exp:
         return ("unmodelled", exp["unmodelled"]), exp, None, src
     got = proglib.run_engine(src)
-    return proglib.compare(exp, got), exp, got, src
+    diff = proglib.compare(exp, got)
+    if diff is None and stack_verifier_off() is None:
+        try:
+            problems = c05_stack.verify_source(src)
+        except Exception:  # undecodable after all: not a verdict
+            problems = []
+        if problems:
+            diff = ("stack-balance", {"problems": [list(p) for p in problems[:3]], "result": got["result"]})
+    return diff, exp, got, src
 
 
 def _nontrivial(tags, loglen):
@@ -361,6 +382,7 @@ def main(chk):
         "oracles/refjs.py implements ECMAScript strict-mode semantics for the IR (agreement with node: oracle_validation/refjs.json)",
         "documented restrictions built into the reference: for-in visits own keys only; eval() shows undefined and null as None",
         "the message of an uncaught runtime error is implementation-defined (only user-thrown values/messages are compared)",
+        "the static stack-balance verifier reads compiler internals and switches itself off when its calibration fails",
     ]
     for path, rec in core.saved_replays(ID):
         r = replay(rec)
@@ -441,6 +463,8 @@ def main(chk):
                 continue
             chk.violation(bucket, {"desc": rec["desc"], "layout_index": rec["i"], "id": rec["id"], "tags": rec["tags"]},
                           rec["exp_result"], {"result": rec["got_result"], "diff": rec["diff"]}, sub=rec["sub"])
+    off = stack_verifier_off()
+    chk.extra["stack_balance_verifier"] = "on (calibrated on %d programs)" % len(c05_stack.CALIBRATION) if off is None else "OFF: " + off
     chk.exhaustive = chk.tier != "quick"
     chk.extra["guards_active"] = sorted(guards)
 
